@@ -127,4 +127,97 @@ theorem membershipProof_spec {H : Bytes → Bytes} (h32 : ∀ x, (H x).length = 
       · intro v' hv'; rw [hget] at hv'; cases hv'
       · intro _; simp [hk]
 
+/-- in a sorted list the keys below `key` are exactly the first `rank` entries -/
+theorem rank_split {m : List (Bytes × Bytes)} (hs : OMap.Sorted m) (key : Bytes) :
+    ∀ (j : Nat) (hj : j < m.length), (j < (m.filter (fun q => q.1 < key)).length ↔ (m[j]).1 < key) := by
+  induction m with
+  | nil => intro j hj; simp at hj
+  | cons p t ih =>
+    intro j hj
+    have hst : OMap.Sorted t := (List.pairwise_cons.1 hs).2
+    have hpt : ∀ q ∈ t, p.1 < q.1 := (List.pairwise_cons.1 hs).1
+    by_cases hp : p.1 < key
+    · simp only [List.filter_cons, hp, decide_true, if_true, List.length_cons]
+      cases j with
+      | zero => simp [hp]
+      | succ j' =>
+        have hj' : j' < t.length := by simpa using hj
+        simp only [List.getElem_cons_succ]
+        have := ih hst j' hj'
+        constructor
+        · intro h; exact this.1 (by omega)
+        · intro h; have := this.2 h; omega
+    · have hnil : t.filter (fun q => q.1 < key) = [] := by
+        rw [List.filter_eq_nil_iff]
+        intro q hq
+        have h1 := hpt q hq
+        have : ¬ q.1 < key := fun h2 => hp (Lex.lt_trans h1 h2)
+        simpa using this
+      simp only [List.filter_cons, hp, decide_false, Bool.false_eq_true, if_false, hnil, List.length_nil]
+      cases j with
+      | zero => simp [hp]
+      | succ j' =>
+        have hj' : j' < t.length := by simpa using hj
+        simp only [List.getElem_cons_succ]
+        have h1 := hpt _ (List.getElem_mem hj')
+        have : ¬ (t[j']).1 < key := fun h2 => hp (Lex.lt_trans h1 h2)
+        simp [this]
+
+/-- the existence proof of a present key, as `createExistenceProof` builds it -/
+theorem createExistenceProof_present {H : Bytes → Bytes} (h32 : ∀ x, (H x).length = 32) (treeVersion : Int)
+    {root : Node} (hw : root.WF) {key v : Bytes} (hv : OMap.get root.toList key = some v) :
+    (createExistenceProof H treeVersion root key).1.key = key ∧
+    (createExistenceProof H treeVersion root key).1.value = v ∧
+    (createExistenceProof H treeVersion root key).1.calc H = root.hash H (treeVersion + 1) := by
+  have hg : (root.get key).2 = some v := by rw [Node.get_spec hw key]; exact hv
+  obtain ⟨p, hp, h1, h2, h3⟩ := (membershipProof_spec h32 treeVersion root key).1 v hg
+  simp only [membershipProof] at hp
+  split at hp
+  · simp only [Except.ok.injEq] at hp
+    rw [hp]; exact ⟨h1, h2, h3⟩
+  · cases hp
+
+/-- Absence proofs: for a key the tree does not hold, `GetNonMembershipProof` succeeds and
+carries the existence proofs of the two neighbours of the key in the sorted list — entry
+`i - 1` (absent when `i = 0`) and entry `i` (absent when `i = size`), where `i` is the number
+of stored keys below the key — each of which ICS23's `Calculate` maps to the root hash.  (That
+the two paths are adjacent is what the ICS23 verifier checks; it is not modelled.) -/
+theorem nonMembershipProof_spec {H : Bytes → Bytes} (h32 : ∀ x, (H x).length = 32) (treeVersion : Int)
+    (root : Node) (hw : root.WF) (key : Bytes) (habs : OMap.get root.toList key = none) :
+    ∃ p, nonMembershipProof H treeVersion (some root) key = .ok p ∧ p.key = key ∧
+      (∀ (j : Nat) (hj : j < root.toList.length), j + 1 = (root.toList.filter (fun q => q.1 < key)).length →
+        ∃ pl, p.left = some pl ∧ pl.key = (root.toList[j]).1 ∧ pl.value = (root.toList[j]).2 ∧
+          pl.calc H = root.hash H (treeVersion + 1)) ∧
+      ((root.toList.filter (fun q => q.1 < key)).length = 0 → p.left = none) ∧
+      (∀ (j : Nat) (hj : j < root.toList.length), j = (root.toList.filter (fun q => q.1 < key)).length →
+        ∃ pr, p.right = some pr ∧ pr.key = (root.toList[j]).1 ∧ pr.value = (root.toList[j]).2 ∧
+          pr.calc H = root.hash H (treeVersion + 1)) ∧
+      ((root.toList.filter (fun q => q.1 < key)).length = root.toList.length → p.right = none) := by
+  have hget := Node.get_spec hw key
+  rw [habs] at hget
+  -- every entry of the list is a present key
+  have hentry : ∀ (j : Nat) (hj : j < root.toList.length),
+      OMap.get root.toList (root.toList[j]).1 = some (root.toList[j]).2 :=
+    fun j hj => OMap.get_of_mem hw.2 (List.getElem_mem hj)
+  simp only [nonMembershipProof, hget]
+  refine ⟨_, rfl, rfl, ?_, ?_, ?_, ?_⟩
+  · intro j hj hji
+    have hidx : ((((root.toList.filter (fun q => q.1 < key)).length : Nat) : Int) - 1) = (j : Int) := by omega
+    have hge : ((((root.toList.filter (fun q => q.1 < key)).length : Nat) : Int)) ≥ 1 := by omega
+    simp only [hge, if_true, hidx, Node.getByIndex_spec hw.1 hj]
+    obtain ⟨a, b, c⟩ := createExistenceProof_present h32 treeVersion hw (hentry j hj)
+    exact ⟨_, rfl, a, b, c⟩
+  · intro h0
+    have : ¬ ((((root.toList.filter (fun q => q.1 < key)).length : Nat) : Int) ≥ 1) := by omega
+    simp only [this, if_false]
+  · intro j hj hji
+    subst hji
+    simp only [Node.getByIndex_spec hw.1 hj]
+    obtain ⟨a, b, c⟩ := createExistenceProof_present h32 treeVersion hw (hentry _ hj)
+    exact ⟨_, rfl, a, b, c⟩
+  · intro hlen
+    have : Node.getByIndex root (((root.toList.filter (fun q => q.1 < key)).length : Nat) : Int) = none :=
+      Node.getByIndex_none hw.1 (Or.inr (by omega))
+    simp only [this]
+
 end GnoVerif.C30
